@@ -245,6 +245,35 @@ def gen_branch_world(rng):
     return w
 
 
+def gen_retract_world(rng):
+    """many small graphs released at staggered instants on one roomy cluster, driven by the fuzzing policy in its RETRACTING
+    mode with frequent invocations: queued placement events of several earlier invocations are withdrawn (EventQueue.remove_event)
+    and re-issued while other events are pending - the queue-maintenance paths a single invocation never reaches"""
+    w = gen_world(rng, policy="EDF", conditionals=False)
+    g0 = w["workload"]["graphs"][0]
+    prof0 = g0["graph"][0]["work_profile"]
+    graphs = []
+    for k in range(rng.randint(6, 12)):
+        graphs.append({"name": "R%d" % k, "graph": [{"name": "T", "work_profile": prof0}], "release_policy": "fixed",
+                       "period": rng.choice([3, 5, 10]), "invocations": rng.randint(1, 2), "start": rng.choice([0, 0, 1, 2, 5, 8, 13, 20]),
+                       "deadline_variance": [400, 400]})
+    w["workload"]["graphs"] = graphs
+    used = {prof0}
+    w["workload"]["profiles"] = [p_ for p_ in w["workload"]["profiles"] if p_["name"] in used]
+    for p_ in w["workload"]["profiles"]:
+        p_["execution_strategies"] = p_["execution_strategies"][:1]
+    f = w["flags"]
+    f.update({"runtime_variance": 0, "scheduler_run_at_worker_free": False, "drop_skipped_tasks": False, "enforce_deadlines": False,
+              "scheduler_frequency": rng.choice([1, 2, 3, 7]), "scheduler_delay": 0, "loop_timeout": rng.choice([300, 600]),
+              "resolve_conditionals_at_submission": False, "decompose_deadlines": False})
+    f.pop("replication_factor", None)
+    w["fuzz"] = {"seed": rng.randint(0, 10 ** 6), "lookahead": 0, "retract": True, "release_taskgraphs": False,
+                 "p_cancel": rng.choice([0.0, 0.03]), "p_unplaced": rng.choice([0.3, 0.5]), "p_future": 0.9, "p_keep": 0.0,
+                 "p_worker": 0.0, "coarse_units": False}
+    w["policy"] = "FUZZ"
+    return w
+
+
 def gen_fuzz_world(rng):
     """a world driven by the harness's adversarial (but contract-respecting) scheduler"""
     w = gen_world(rng, policy="EDF", conditionals=rng.random() < 0.5, closed_loop=rng.random() < 0.1)
